@@ -197,6 +197,22 @@ def match(ref, cur):
         return {}, []
     resolved = {}
     log = []
+    # a function that kept its name and moved (to another module, into an impl block: free function <-> method) is matched by that
+    # name when it is the only missing function and the only new function called so, and the bodies are alike — twins such as
+    # replicate_message_to_all / _to_secoundary score too close to each other for the margin test below
+    by_leaf_r, by_leaf_n = {}, {}
+    for r in missing:
+        by_leaf_r.setdefault(_leaf(_strip_generics(r)), []).append(r)
+    for n in extra:
+        by_leaf_n.setdefault(_leaf(_strip_generics(n)), []).append(n)
+    for leaf, rs in by_leaf_r.items():
+        ns = by_leaf_n.get(leaf, [])
+        if len(rs) == 1 and len(ns) == 1 and not leaf.startswith('{') and ref[rs[0]]['kind'] in ('fn', 'method') and cur[ns[0]]['kind'] in ('fn', 'method') \
+                and len(ref[rs[0]]['sig']) == len(cur[ns[0]]['sig']):
+            s_ = score(ref[rs[0]], cur[ns[0]], rs[0], ns[0], resolved)
+            if s_ >= THRESHOLD * 0.8:
+                resolved[ns[0]] = rs[0]
+                log.append({'tree': ns[0], 'reference': rs[0], 'score': round(s_, 3), 'by': 'same name, moved'})
     for rnd in range(4):
         miss = [r for r in missing if r not in resolved.values()]
         ext = [n for n in extra if n not in resolved]
